@@ -58,6 +58,46 @@ def template_lemmas():
     
     return []
 
+SCEN_SRC = """
+import sys, types, functools, warnings
+from beartype import beartype
+from beartype.roar import BeartypeCallHintViolation
+bad = []
+def expect_violation(label, thunk):
+    try: r = thunk(); bad.append((label, 'accepted -> ' + repr(r)[:40]))
+    except BeartypeCallHintViolation: pass
+    except Exception as e: bad.append((label, type(e).__name__ + ': ' + str(e)[:60]))
+def expect_ok(label, thunk):
+    try: thunk()
+    except Exception as e: bad.append((label, type(e).__name__ + ': ' + str(e)[:80]))
+# (1) memoising decorators below @beartype: a cache hit is still a call with passed values
+@beartype
+@functools.lru_cache(maxsize=None)
+def mul(a: int, b: int) -> int: return a * b
+expect_ok('lru_cache first call', lambda: mul(1, 2))
+expect_violation('lru_cache_hit_unchecked', lambda: mul(1.0, 2.0))       # 1.0 == 1 and hash(1.0) == hash(1): a cache hit
+# (2) the wrapper of a function whose MODULE shadows a builtin the generated code uses by name
+for name, shadow in (('len', 'def len(x): return 0'), ('isinstance', 'def isinstance(a, b): return True')):
+    m = types.ModuleType('c04shadow_' + name); sys.modules[m.__name__] = m; m.__dict__['beartype'] = beartype
+    exec(shadow + chr(10) + '@beartype' + chr(10) + 'def f(x: int, y: list[str]) -> None: return None' + chr(10), m.__dict__)
+    expect_violation(f'module_shadows_builtin_{name}', lambda m=m: m.f('not an int', ['ok']))
+print(bad)
+sys.exit(1 if bad else 0)
+"""
+def scenarios(rep):
+    """bounded (NOT counted as proved): call shapes outside the per-signature proof - memoising decorators under @beartype, modules that
+    shadow builtins the generated wrapper refers to by bare name"""
+    import subprocess, sys, os, json, ast as _ast
+    from pyvc import REPO
+    env = dict(os.environ); env['PYTHONPATH'] = REPO
+    p = subprocess.run([sys.executable, '-c', SCEN_SRC], capture_output=True, text=True, timeout=120, env=env, cwd='/')
+    if p.returncode not in (0, 1) or (p.returncode == 1 and not p.stdout.strip().startswith('[')): rep.error('C04 scenarios harness: ' + (p.stdout + p.stderr)[-600:]); return
+    fails = _ast.literal_eval(p.stdout.strip().splitlines()[-1]) if p.returncode == 1 else []
+    for label, what in fails:
+        rep.add(f'C04.scenario.{label.replace(" ", "_")}', 'refuted', backend='runtime-contract', where=what, solver_output='bounded run-time contract in a fresh interpreter (not a proof)',
+                replay=dict(reproduced=True, detail=f'{label}: {what}'), replay_script=f"import subprocess\nenv = dict(os.environ); env['PYTHONPATH'] = {REPO!r}\np = subprocess.run([sys.executable, '-c', {SCEN_SRC!r}], env=env, cwd='/')\nsys.exit(p.returncode)\n")
+    rep.bounded.append(dict(kind='decorated-callable scenarios outside the per-signature proof (bounded stand-in, NOT counted as proved)', scenarios=4, failing=len(fails)))
+
 def main(tier, seed):
     rep = report.Report('C04', tier, seed, 'proof', f'./check C04 --tier {tier}')
     sigs = signatures(tier, seed)
@@ -81,6 +121,8 @@ def main(tier, seed):
     from props import c04_iter
     _f = list(rep.functions); c04_iter.safe(rep); rep.functions = _f
     b = iter_func_args_bounded(rep, tier)
+    try: scenarios(rep)
+    except Exception: rep.error('C04 scenarios: ' + traceback.format_exc()[-1500:])
     files = ['beartype/_decor/_nontype/_wrap/_wrapargs.py', 'beartype/_decor/_nontype/_wrap/_wrapreturn.py', 'beartype/_decor/_nontype/_wrap/wrapmain.py',
              'beartype/_data/check/code/func/datacodefuncwrap.py', 'beartype/_util/func/arg/utilfuncargiter.py', 'beartype/_util/func/arg/utilfuncarglen.py']
     rep.functions = ['wrapper text generated per signature (mode G)', 'beartype/_util/func/arg/utilfuncargiter.py:iter_func_args (mode F: 5 loop invariants, ghost yield sequence, bound-method omission; leading asserts dropped)'] + [f'{p}@{report.src_hash(p)}' for p in files]
